@@ -308,12 +308,16 @@ Definition child_eof (E : env) (s : state) (cgfail : bool) : state * bool :=
   | _ => (s, negb cgfail)
   end.
 
+(* bytes goawk holds back in its own buffer of standard output *)
+Definition stdout_pending (E : env) (s : state) : nat :=
+  match e_mode E with Buf _ => length (bw_buf (st_out s)) | _ => 0%nat end.
+
 (* a process is started with Stdout = p.output (system, print | cmd) or with
    Stdout = a pipe read by goawk (cmd | getline); returns the state and
    whether os/exec's ReadFrom entry check already failed *)
 Definition start_proc (E : env) (s : state) (c : name) : state * bool :=
   let sp := e_spec E c in
-  let s := add_log s (EvStart c (length (bw_buf (st_out s))) (bw_err (st_out s))) in
+  let s := add_log s (EvStart c (stdout_pending E s) (bw_err (st_out s))) in
   let s := match c_sink sp with
            | Some t => add_log (set_fs s (fs_append (st_fs s) t (c_append sp))) (EvChildAppend t (c_append sp))
            | None => s
